@@ -240,7 +240,7 @@ func c04Indexes(set, flavour int) []sql.Index {
 
 type c04Key struct {
 	col  int
-	desc bool // may be symbolic
+	desc bool
 }
 
 func c04ColOf(e sql.Expression) int {
@@ -271,25 +271,30 @@ type c04Ranges struct{ x, y int64 }
 
 // c04ScanKeys: the order the rows of a static index scan are guaranteed to
 // have, or ok=false when there is no such guarantee: the index must declare
-// an order, a reverse scan needs a reversible index, and several ranges must
-// be disjoint and listed in scan order.
-func c04ScanKeys(ita *plan.IndexedTableAccess, rg c04Ranges) (keys []c04Key, ok bool) {
+// an order and a reverse scan needs a reversible index.
+//
+// listOk is a condition of its own on lookups with several ranges: the ranges
+// are disjoint and listed in scan order. sql.NewIndexLookup reverses the list
+// for a reverse scan, so the list order is part of the lookup for backends
+// that scan range by range; the in-memory tables filter the index rows with
+// the union of the ranges and do not depend on it.
+func c04ScanKeys(ita *plan.IndexedTableAccess, rg c04Ranges) (keys []c04Key, ok, listOk bool) {
 	lookup, _, err := ita.GetLookup(nil, nil)
 	if err != nil {
-		return nil, false
+		return nil, false, false
 	}
 	oi, isOrd := lookup.Index.(*c04OrdIdx)
 	if !isOrd || oi.order != sql.IndexOrderAsc {
-		return nil, false
+		return nil, false, false
 	}
 	if lookup.IsReverse && !oi.reversible {
-		return nil, false
+		return nil, false, false
 	}
 	ranges, isMySQL := lookup.Ranges.(sql.MySQLRangeCollection)
 	if !isMySQL || len(ranges) < 1 || len(ranges) > 2 {
-		return nil, false
+		return nil, false, false
 	}
-	ok = true
+	listOk = true
 	if len(ranges) == 2 {
 		// (a < x) has the type OpenOpen (NULL excluded), (a > y) GreaterThan
 		first := ranges[0][0].Type()
@@ -297,13 +302,13 @@ func c04ScanKeys(ita *plan.IndexedTableAccess, rg c04Ranges) (keys []c04Key, ok 
 		if lookup.IsReverse {
 			inScanOrder = first == sql.RangeType_GreaterThan
 		}
-		ok = nd.And(inScanOrder, rg.x <= rg.y)
+		listOk = nd.And(inScanOrder, rg.x <= rg.y)
 	}
 	keys = make([]c04Key, len(oi.cols))
 	for i, c := range oi.cols {
 		keys[i] = c04Key{col: c, desc: lookup.IsReverse}
 	}
-	return keys, ok
+	return keys, true, listOk
 }
 
 func c04Chain(n sql.Node) []sql.Node {
@@ -319,22 +324,30 @@ func c04Chain(n sql.Node) []sql.Node {
 	return out
 }
 
+type c04Guar struct {
+	keys     []c04Key
+	ok       bool // the rows are ordered by keys
+	listOk   bool // index scan: see c04ScanKeys
+	fromScan bool // the order comes from an index scan, not from a Sort
+}
+
 // c04Guaranteed: the order of the rows leaving chain[0]: that of the nearest
 // Sort or index scan below, seen through Filter / Limit / Offset (which keep
 // the order of their input); a plain table scan guarantees nothing.
-func c04Guaranteed(chain []sql.Node, rg c04Ranges) (keys []c04Key, ok bool) {
+func c04Guaranteed(chain []sql.Node, rg c04Ranges) c04Guar {
 	for _, n := range chain {
 		switch n := n.(type) {
 		case *plan.Sort:
-			return c04SortKeys(n), true
+			return c04Guar{keys: c04SortKeys(n), ok: true, listOk: true}
 		case *plan.IndexedTableAccess:
-			return c04ScanKeys(n, rg)
+			keys, ok, listOk := c04ScanKeys(n, rg)
+			return c04Guar{keys: keys, ok: ok, listOk: listOk, fromScan: true}
 		case *plan.Filter, *plan.Limit, *plan.Offset:
 		default:
-			return nil, false
+			return c04Guar{}
 		}
 	}
-	return nil, false
+	return c04Guar{}
 }
 
 // c04Provides: rows ordered by got (valid iff gotOk) are ordered by want.
@@ -352,11 +365,6 @@ func c04Provides(want, got []c04Key, gotOk bool) bool {
 	return ok
 }
 
-type c04Guar struct {
-	keys []c04Key
-	ok   bool
-}
-
 // c04Validate runs the rule on the plan and validates the rewritten plan
 // against the original one (translation validation). Both are chains.
 func c04Validate(tag string, node sql.Node, rg c04Ranges) {
@@ -365,8 +373,7 @@ func c04Validate(tag string, node sql.Node, rg c04Ranges) {
 	// reorders the range list of an existing lookup in place)
 	oguar := make([]c04Guar, len(ochain)+1)
 	for i := range ochain {
-		k, ok := c04Guaranteed(ochain[i:], rg)
-		oguar[i] = c04Guar{k, ok}
+		oguar[i] = c04Guaranteed(ochain[i:], rg)
 	}
 	var oRangeTypes []sql.RangeType
 	if ita, isIta := ochain[len(ochain)-1].(*plan.IndexedTableAccess); isIta {
@@ -384,7 +391,7 @@ func c04Validate(tag string, node sql.Node, rg c04Ranges) {
 	nd.Assert(tag+".same-tree-means-unchanged", same == transform.NewTree || res == node)
 
 	rchain := c04Chain(res)
-	shape, rows, order, limitIn := true, true, true, true
+	shape, rows, order, orderNested, limitIn, rangeList := true, true, true, true, true, true
 	removed := 0
 	j := 0
 	for i, on := range ochain {
@@ -405,8 +412,20 @@ func c04Validate(tag string, node sql.Node, rg c04Ranges) {
 			}
 			// the Sort was removed: what is below must provide its order
 			removed++
-			got, gotOk := c04Guaranteed(rchain[j:], rg)
-			order = nd.And(order, c04Provides(oguar[i].keys, got, gotOk))
+			got := c04Guaranteed(rchain[j:], rg)
+			provided := c04Provides(oguar[i].keys, got.keys, got.ok)
+			nested := false
+			for _, below := range ochain[i+1:] {
+				if _, isSort := below.(*plan.Sort); isSort {
+					nested = true
+				}
+			}
+			if nested {
+				orderNested = nd.And(orderNested, provided)
+			} else {
+				order = nd.And(order, provided)
+			}
+			rangeList = nd.And(rangeList, got.listOk)
 		case *plan.Filter:
 			r, is := rn.(*plan.Filter)
 			shape = nd.And(shape, is && r.Expression == o.Expression)
@@ -414,17 +433,17 @@ func c04Validate(tag string, node sql.Node, rg c04Ranges) {
 		case *plan.Limit:
 			r, is := rn.(*plan.Limit)
 			shape = nd.And(shape, is && r.Limit == o.Limit)
-			if in := oguar[i+1]; len(in.keys) > 0 {
-				got, gotOk := c04Guaranteed(rchain[j+1:], rg)
-				limitIn = nd.And(limitIn, nd.Implies(in.ok, c04Provides(in.keys, got, gotOk)))
+			if in := oguar[i+1]; in.fromScan && in.ok {
+				got := c04Guaranteed(rchain[j+1:], rg)
+				limitIn = nd.And(limitIn, c04Provides(in.keys, got.keys, got.ok))
 			}
 			j++
 		case *plan.Offset:
 			r, is := rn.(*plan.Offset)
 			shape = nd.And(shape, is && r.Offset == o.Offset)
-			if in := oguar[i+1]; len(in.keys) > 0 {
-				got, gotOk := c04Guaranteed(rchain[j+1:], rg)
-				limitIn = nd.And(limitIn, nd.Implies(in.ok, c04Provides(in.keys, got, gotOk)))
+			if in := oguar[i+1]; in.fromScan && in.ok {
+				got := c04Guaranteed(rchain[j+1:], rg)
+				limitIn = nd.And(limitIn, c04Provides(in.keys, got.keys, got.ok))
 			}
 			j++
 		case *plan.ResolvedTable:
@@ -479,10 +498,15 @@ func c04Validate(tag string, node sql.Node, rg c04Ranges) {
 	nd.Assert(tag+".plan-otherwise-unchanged", shape)
 	nd.Assert(tag+".no-row-lost", rows)
 	nd.Assert(tag+".removed-sort-order-provided", order)
-	// input class of its own: a LIMIT / OFFSET whose input was ordered by an
-	// index scan in the original plan (that is how this very rule leaves an
-	// ORDER BY ... LIMIT behind) must still see that order
+	// Input classes of their own, asserted last:
+	// (1) the removed Sort has another Sort between itself and the scan
+	nd.Assert(tag+".removed-sort-order-provided.other-sort-below", orderNested)
+	// (2) a LIMIT / OFFSET whose input was ordered by an index scan in the
+	// original plan (that is how this very rule leaves ORDER BY ... LIMIT
+	// behind) must still see that order
 	nd.Assert(tag+".limit-input-order-kept", limitIn)
+	// (3) lookups with several ranges: see c04ScanKeys
+	nd.Assert(tag+".range-list-in-scan-order", rangeList)
 }
 
 func c04SortConds(tag string, n int, upper bool) sql.SortConditions {
@@ -490,7 +514,7 @@ func c04SortConds(tag string, n int, upper bool) sql.SortConditions {
 	for i := 0; i < n; i++ {
 		col := nd.Pick(c04Name(tag+".col", i), 3)
 		o := sql.Ascending
-		if nd.Bool(c04Name(tag+".desc", i)) {
+		if nd.Pick(c04Name(tag+".desc", i), 2) == 1 {
 			o = sql.Descending
 		}
 		scs[i] = sql.SortCondition{Expr: c04Field(col, upper), Order: o}
@@ -510,16 +534,16 @@ func c04Offset(child sql.Node) sql.Node {
 	return plan.NewOffset(expression.NewLiteral(int64(1), types.Int64), child)
 }
 
-// ORDER BY over a table scan: Sort [Filter|Limit|Offset] ResolvedTable, with a
-// LIMIT above or a second ORDER BY below.
+// ORDER BY over a table scan: Sort [Filter|Limit|Offset] ResolvedTable, with
+// and without a LIMIT above.
 func VerifC04IdxSortPlanTable() {
 	const tag = "c04.idxsort.table"
 	tbl := &c04Tbl{idxs: c04Indexes(nd.Pick(tag+".indexes", 4), nd.Pick(tag+".flavour", 4))}
 	var rt sql.Node = plan.NewResolvedTable(tbl, &c04Db{tbl}, nil)
-	upper := nd.Pick(tag+".upper", 2) == 1
+	upper := nd.Pick(tag+".upper", nd.Bound(1, 2)) == 1
 	scs := c04SortConds(tag+".k", nd.IntRange(tag+".n", 1, nd.Bound(2, 3)), upper)
 	var node sql.Node
-	switch nd.Pick(tag+".shape", 6) {
+	switch nd.Pick(tag+".shape", 5) {
 	case 0:
 		node = plan.NewSort(scs, rt)
 	case 1:
@@ -528,13 +552,23 @@ func VerifC04IdxSortPlanTable() {
 		node = c04Limit(plan.NewSort(scs, rt))
 	case 3:
 		node = plan.NewSort(scs, c04Limit(rt))
-	case 4:
-		node = c04Limit(plan.NewSort(scs, c04Offset(c04Filter(rt))))
 	default:
-		inner := c04SortConds(tag+".i", nd.IntRange(tag+".ni", 1, 2), false)
-		node = plan.NewSort(scs, c04Offset(plan.NewSort(inner, rt)))
+		node = c04Limit(plan.NewSort(scs, c04Offset(c04Filter(rt))))
 	}
 	c04Validate(tag, node, c04Ranges{})
+}
+
+// Two ORDER BYs in one chain (the outer one of a derived table's parent query
+// reaches the inner one through the SubqueryAlias case of the rule, which hands
+// the alias's child chain to the same walk): Sort Offset Sort ResolvedTable.
+func VerifC04IdxSortPlanNestedSorts() {
+	const tag = "c04.idxsort.nested"
+	flavour := [2]int{0, 2}[nd.Pick(tag+".flavour", 2)]
+	tbl := &c04Tbl{idxs: c04Indexes(nd.Pick(tag+".indexes", 3), flavour)}
+	var rt sql.Node = plan.NewResolvedTable(tbl, &c04Db{tbl}, nil)
+	outer := c04SortConds(tag+".k", nd.IntRange(tag+".n", 1, nd.Bound(1, 2)), false)
+	inner := c04SortConds(tag+".i", nd.IntRange(tag+".ni", 1, 2), false)
+	c04Validate(tag, plan.NewSort(outer, c04Offset(plan.NewSort(inner, rt))), c04Ranges{})
 }
 
 // ORDER BY over an existing static index scan (as left by filter push-down, or
@@ -542,11 +576,12 @@ func VerifC04IdxSortPlanTable() {
 func VerifC04IdxSortPlanIndexedAccess() {
 	const tag = "c04.idxsort.scan"
 	var idx sql.Index
+	flavour := nd.Pick(tag+".flavour", 4)
 	switch nd.Pick(tag+".index", 2) {
 	case 0:
-		idx = c04Index("ab", nd.Pick(tag+".flavour", 4), 0, 1)
+		idx = c04Index("ab", flavour, 0, 1)
 	default:
-		idx = c04Index("a", nd.Pick(tag+".flavour", 4), 0)
+		idx = c04Index("a", flavour, 0)
 	}
 	ncols := len(idx.Expressions())
 	tbl := &c04Tbl{idxs: []sql.Index{idx}}
@@ -571,7 +606,9 @@ func VerifC04IdxSortPlanIndexedAccess() {
 		rg.x, rg.y = nd.Int64(tag+".x"), nd.Int64(tag+".y")
 		ranges = sql.MySQLRangeCollection{mk(sql.LessThanRangeColumnExpr(rg.x, types.Int64)), mk(sql.GreaterThanRangeColumnExpr(rg.y, types.Int64))}
 	}
-	lookup := sql.NewIndexLookup(idx, ranges, false, false, false, nd.Pick(tag+".reversed", 2) == 1)
+	// the existing scan is a reverse one only over an ordered, reversible index
+	reversed := flavour == 0 && nd.Pick(tag+".reversed", 2) == 1
+	lookup := sql.NewIndexLookup(idx, ranges, false, false, false, reversed)
 	ita, err := plan.NewStaticIndexedAccessForTableNode(nil, rt, lookup)
 	if err != nil {
 		nd.Assert(tag+".fixture", false)
